@@ -178,7 +178,7 @@ func (t *JT) PathString(p JPath) string {
 }
 
 // FaultKinds lists the schema faults applied at a path.
-var FaultKinds = []string{"null", "number", "string", "object", "array", "bool", "empty", "absent", "duplicate", "oversize", "deep", "freetext", "spaced", "padded"}
+var FaultKinds = []string{"null", "number", "string", "object", "array", "bool", "empty", "absent", "duplicate", "oversize", "deep", "freetext", "spaced", "padded", "blank", "punct"}
 
 // ApplyFault returns a copy of t with the fault applied at p, or nil when it does not apply there.
 func (t *JT) ApplyFault(p JPath, kind string) *JT {
@@ -302,6 +302,16 @@ func (t *JT) ApplyFault(p JPath, kind string) *JT {
 			return nil
 		}
 		return set(&JT{Kind: 's', Scalar: "  " + cur.Scalar + "\t "})
+	case "blank": // not empty, and nothing left once white space is trimmed
+		if cur.Kind != 's' {
+			return nil
+		}
+		return set(&JT{Kind: 's', Scalar: " \t "})
+	case "punct": // nothing but the separators identifiers are assembled with
+		if cur.Kind != 's' {
+			return nil
+		}
+		return set(&JT{Kind: 's', Scalar: "#"})
 	}
 	return nil
 }
